@@ -41,3 +41,9 @@ pub mod db {
 mod common;
 #[cfg(kani)]
 mod c15;
+#[cfg(kani)]
+mod c16;
+#[cfg(kani)]
+mod c17;
+#[cfg(kani)]
+mod c19;
